@@ -323,6 +323,83 @@ theorem absent_account_rejected (env : Env) (cs : ClientState) (store : ConsStor
   subst e
   exact habs _ hacct
 
+/-! ## each proof is verified from its own node set -/
+
+/-- **storage_step_uses_only_storage_nodes.** The node list of `account_proof` is used by the account step only:
+    replacing it by any other list for which the account step gives the same answer (more nodes, storage-trie nodes
+    mixed in, another order, …) leaves the result unchanged. In particular the storage step never sees account-proof
+    nodes: the model passes `sp.proof` alone to `Env.mpt` (the code re-allocates the node list before step 3). -/
+theorem storage_step_uses_only_storage_nodes (env : Env) (cs : ClientState) (store : ConsStore) (h : Height) (p : Proof)
+    (ap' : List Bytes) (k : PathKind) (src dst : Bytes) (seq : UInt64) (value : Bytes)
+    (hacct : ∀ root, env.mpt root (env.keccak (fromHex p.address)) (ap'.map fromHex)
+                   = env.mpt root (env.keccak (fromHex p.address)) (p.accountProof.map fromHex)) :
+    verify env cs store h (.parsed { p with accountProof := ap' }) k src dst seq value
+      = verify env cs store h (.parsed p) k src dst seq value := by
+  unfold verify verifyMerkleProof
+  simp only [hacct]
+
+/-- What `trie.VerifyProof` needs (assumption about the external primitive, a hypothesis like `MptSound`): for every
+    root and key there is the list `path root key` of the trie nodes on the way from the root to the key, and a proof is
+    accepted with a value only if every one of them is in the node set handed to THAT call (each step looks the next
+    node up by its hash; a missing node is "proof node missing"). -/
+def MptNeedsPath (env : Env) (path : Bytes → Bytes → List Bytes) : Prop :=
+  ∀ root key nodes v, env.mpt root key nodes = .value v → ∀ n, n ∈ path root key → n ∈ nodes
+
+/-- **truncated_storage_proof_rejected.** If a node on the storage-trie path of the slot is missing from
+    `storage_proof[0].proof`, the call is rejected — whatever `account_proof` contains (the missing node may well be
+    there), for every value, height and client state. -/
+theorem truncated_storage_proof_rejected {env : Env} {path : Bytes → Bytes → List Bytes} (hn : MptNeedsPath env path)
+    (cs : ClientState) (store : ConsStore) (h : Height) (p : Proof) (sp : StorageResult)
+    (k : PathKind) (src dst : Bytes) (seq : UInt64) (value : Bytes)
+    (hsp : p.storageProof = [some sp]) (n : Bytes)
+    (hpath : n ∈ path (hexToHash p.storageHash) (env.keccak (hexToHash sp.key)))
+    (hmiss : n ∉ sp.proof.map fromHex) :
+    verify env cs store h (.parsed p) k src dst seq value ≠ .ok () := by
+  apply storage_not_proven_rejected env cs store h p sp k src dst seq value hsp
+  intro v hv
+  exact hmiss (hn _ _ _ v hv n hpath)
+
+/-- the same for the account proof: a missing account-trie node is not made up for by the storage proof's nodes -/
+theorem truncated_account_proof_rejected {env : Env} {path : Bytes → Bytes → List Bytes} (hn : MptNeedsPath env path)
+    (cs : ClientState) (store : ConsStore) (h : Height) (p : Proof) (cons : ConsState)
+    (k : PathKind) (src dst : Bytes) (seq : UInt64) (value : Bytes)
+    (hst : store.get h = some (.state cons)) (n : Bytes)
+    (hpath : n ∈ path (bytesToHash cons.root) (env.keccak (fromHex p.address)))
+    (hmiss : n ∉ p.accountProof.map fromHex) :
+    verify env cs store h (.parsed p) k src dst seq value ≠ .ok () := by
+  apply absent_account_rejected env cs store h p cons k src dst seq value hst
+  intro v hv
+  exact hmiss (hn _ _ _ v hv n hpath)
+
+/-- `trie.VerifyProof` works on a node SET: more nodes never hurt (assumption about the primitive) -/
+def MptMonotone (env : Env) : Prop :=
+  ∀ root key ns ns' v, (∀ n, n ∈ ns → n ∈ ns') → env.mpt root key ns = .value v → env.mpt root key ns' = .value v
+
+/-- **extra_nodes_harmless.** Under `MptMonotone`, adding nodes (unrelated ones, duplicates, nodes of the other
+    component, any order) to `account_proof` and to the storage proof keeps an accepted proof accepted. -/
+theorem extra_nodes_harmless {env : Env} (hm : MptMonotone env)
+    (cs : ClientState) (store : ConsStore) (h : Height) (p : Proof) (sp : StorageResult) (ap' sp' : List Bytes)
+    (k : PathKind) (src dst : Bytes) (seq : UInt64) (value : Bytes)
+    (hsp : p.storageProof = [some sp])
+    (hap : ∀ s, s ∈ p.accountProof → s ∈ ap') (hspn : ∀ s, s ∈ sp.proof → s ∈ sp')
+    (hacc : verify env cs store h (.parsed p) k src dst seq value = .ok ()) :
+    verify env cs store h (.parsed { p with accountProof := ap', storageProof := [some { sp with proof := sp' }] })
+      k src dst seq value = .ok () := by
+  obtain ⟨p0, cons, hp, hst, hh, haddr, hacct, sp0, raw, t, hsp0, hkey, hstor, hdec, hpad⟩ := (accept_iff ..).mp hacc
+  cases hp
+  rw [hsp] at hsp0
+  have e : sp = sp0 := by simpa using hsp0
+  subst e
+  refine (accept_iff ..).mpr ⟨_, cons, rfl, hst, hh, haddr, ?_, { sp with proof := sp' }, raw, t, rfl, hkey, ?_, hdec, hpad⟩
+  · refine hm _ _ _ _ _ ?_ hacct
+    intro n hn
+    obtain ⟨s, hs, rfl⟩ := List.mem_map.mp hn
+    exact List.mem_map.mpr ⟨s, hap s hs, rfl⟩
+  · refine hm _ _ _ _ _ ?_ hstor
+    intro n hn
+    obtain ⟨s, hs, rfl⟩ := List.mem_map.mp hn
+    exact List.mem_map.mpr ⟨s, hspn s hs, rfl⟩
+
 /-! ## the height gate -/
 
 /-- **delay_gate.** Acceptance implies the height rule in unbounded arithmetic … -/
@@ -566,6 +643,33 @@ theorem toyEnv_sound : MptSound toyEnv toySem := by
 example : ∃ cons, toyStore.get ⟨0, 100⟩ = some (.state cons) ∧ HeightRule toyCs ⟨0, 100⟩ ∧
     StateHolds toyEnv toySem (bytesToHash cons.root) toyCs.contract (slotOf toyEnv .commitment [] [] 0) toyValue :=
   binds toyEnv_sound toy_accepted
+
+/-! a node-sensitive environment: every verification step needs the node 0xee in ITS node list -/
+
+def toyEnv2 : Env :=
+  { keccak := toyKeccak
+    mpt := fun root key nodes => if [0xee] ∈ nodes then toyEnv.mpt root key nodes else .invalid }
+
+def toyPath (_ _ : Bytes) : List Bytes := [[0xee]]
+
+theorem toyEnv2_needsPath : MptNeedsPath toyEnv2 toyPath := by
+  intro root key nodes v h n hn
+  simp only [toyPath, List.mem_singleton] at hn
+  subst hn
+  simp only [toyEnv2] at h
+  by_cases hm : [0xee] ∈ nodes
+  · exact hm
+  · simp [hm] at h
+
+/-- complete proofs ("ee" in both lists): accepted -/
+example : verify toyEnv2 toyCs toyStore ⟨0, 100⟩
+    (.parsed { toyProof with accountProof := [[0x65, 0x65]], storageProof := [some { key := [0x64, 0x30], value := [], proof := [[0x65, 0x65]] }] })
+    .commitment [] [] 0 toyValue = .ok () := by decide
+
+/-- the storage node moved into `account_proof` (storage proof empty): rejected at the storage step -/
+example : verify toyEnv2 toyCs toyStore ⟨0, 100⟩
+    (.parsed { toyProof with accountProof := [[0x65, 0x65], [0x65, 0x65]], storageProof := [some { key := [0x64, 0x30], value := [], proof := [] }] })
+    .commitment [] [] 0 toyValue = .err "storage-proof" := by decide
 
 end Example
 
